@@ -503,6 +503,16 @@ def _joint(mu, S, axis, members):
     return gauss, V, r
 
 
+class _ViaMulti:
+    """routes Problem.add_source's add_error call through MultiFit.add_error(err_val, fits=<member index>, axis=...)"""
+
+    def __init__(self, mf, index):
+        self.mf, self.index = mf, index
+
+    def add_error(self, axis, err_val, **kw):
+        return self.mf.add_error(err_val, self.index, axis=axis, **kw)
+
+
 def sc_shared(cx, keys, kind, axis, members, variant="plain", n=2):
     """n = 2: the inputs of the shared cost (covariance handed to the decomposition, data, model) entrywise;
     n = 1: additionally the cost identity against the joint chi2 (joint covariance up to 3 x 3)"""
@@ -523,6 +533,18 @@ def sc_shared(cx, keys, kind, axis, members, variant="plain", n=2):
     if variant == "two-sources":
         # a second shared source on the same axis of the same members: the blocks add up
         S = O.madd(S, _shared_source(cx, mu, "MC" if kind != "MC" else "SAv", axis, members, tag="sh2", name="shared2"))
+    if variant.startswith("member-late-"):
+        # a source declared for ONE member after the shared source exists: directly on the member, or through
+        # MultiFit.add_error(..., fits=<index>)
+        i0 = [i for i, p_ in enumerate(mu.members) if p_.ftype == "xy"][0]
+        pb0 = mu.members[i0]
+        real = pb0.fit
+        if variant.endswith("-via-multi"):
+            pb0.fit = _ViaMulti(mf, i0)
+        try:
+            pb0.add_source("SA", "late", axis="x" if variant.startswith("member-late-x") else "y", reference="data", rho=0)
+        finally:
+            pb0.fit = real
     gauss, V, r = _joint(mu, S, axis or "y", members)
     for S_, ax_ in extra_shared:
         # further shared sources (possibly on another axis): add their blocks
@@ -664,6 +686,9 @@ def scenarios(tier, seed):
         (["hist", "xyab", "xybc"], "SAv", "y", [1, 2], "plain"),
         (["xyab", "xybc", "idba"], "SA", "y", [0, 2], "plain"),
         (["xyab", "xybc", "idba"], "MC", "y", [0, 1, 2], "plain"),
+        (["xyab", "xybc"], "SA", "y", [0, 1], "member-late-x"),
+        (["xyab", "xybc"], "SA", "y", [0, 1], "member-late-x-via-multi"),
+        (["xyab", "xybc"], "SA", "y", [0, 1], "member-late-y-via-multi"),
     ]
     if not q:
         shared += [
@@ -674,6 +699,8 @@ def scenarios(tier, seed):
             (["idab", "idbc-k"], "MC", None, [0, 1], "constraint-on-multi"),
             (["xyab", "hist", "idba"], "SA", "y", [0, 2], "plain"),
             (["xyab", "xybc", "idba"], "SA", "y", [1, 2], "disable"),
+            (["xyab", "xybc"], "SA", "x", [0, 1], "member-late-x-via-multi"),
+            (["idba", "xybc"], "MC", "y", [0, 1], "member-late-x"),
         ]
     for keys, kind, axis, members, variant in shared:
         for n in (1, 2):
